@@ -192,9 +192,13 @@ def _shard(ctx, rng, ovf):
             r = judge(ctx, channel, res, case, "mutated-rules")
             if r is None:
                 continue
-            if pt is not None and not parses and pt.get("r") == "err":
+            ptmsg = (pt.get("emsg", "") + pt.get("err", "")) if pt is not None else ""
+            if pt is not None and not parses and pt.get("r") == "err" and not re.search(r"Pars(er|ing) [Ee]rror", ptmsg):
+                # parse-tree failed for another reason than the grammar (e.g. an infinite float literal cannot be written as JSON): a diagnostic error, allowed
+                ctx.res.counts["parse_tree_non_grammar_errors"] += 1
+            elif pt is not None and not parses and pt.get("r") == "err":
                 # whole-file rejection with a position, and no rule evaluated
-                m = LINECOL.search(pt.get("emsg", "") + pt.get("err", ""))
+                m = LINECOL.search(ptmsg)
                 if m:
                     parse_err_positions.add(m.group(0))
                 else:
@@ -292,7 +296,55 @@ def _shard(ctx, rng, ovf):
         shutil.rmtree(sdir, ignore_errors=True)
 
 
+# ------------------------------------------------------------------ crash sweep: other monitors' workloads under the overflow-checked worker
+
+SWEEP = {"quick": ["c18", "c13"], "thorough": ["c18", "c13", "c01", "c03", "c10", "c15", "c11", "c17"]}
+
+
+def _sweep(modname, ctx):
+    """run another property's quick workload on the overflow-checked worker; its semantic verdicts are ignored here
+    (they are that property's business), every job that ends in a panic / abort / signal / hang is a C08 event"""
+    import importlib
+    mod = importlib.import_module("gvlib.props." + modname)
+    crashes = []
+    plain_run = ctx.w.run
+
+    def watched(job, timeout=None):
+        res = plain_run(job, timeout)
+        ctx.res.counts["sweep_jobs"] += 1
+        sig = core.crash_signature(res)
+        if sig and sig != "hang":
+            crashes.append((sig, job, (res.get("err") or "")[:300]))
+        return res
+    ctx.w.run = watched
+    ctx.violation = lambda sig, what, rp: None
+    ctx.inconclusive = lambda why: None
+    ctx.sample = lambda s, limit=3: None
+    try:
+        mod.shard(ctx)
+    finally:
+        ctx.w.run = plain_run
+    ctx.res.violations = []
+    ctx.res.samples = []
+    ctx.res.cases = 0
+    ctx.res.distinct = set()
+    ctx.res.extra = {}
+    keep = core.Counter()
+    keep["sweep_jobs"] = ctx.res.counts["sweep_jobs"]
+    ctx.res.counts = keep
+    ctx.res.inconclusive = core.Counter()
+    for sig, job, err in crashes:
+        core.Ctx.violation(ctx, sig, "[overflow-checked worker, workload of %s] %s: %s" % (modname.upper(), sig, err), {"kind": "job", "job": job, "workload": modname})
+
+
 def replay(case, w):
+    if case["kind"] == "job":
+        ovf = core.Worker(binary=core.OVF_BIN)
+        try:
+            sigs = [core.crash_signature(x.run(case["job"])) for x in (w, ovf)]
+        finally:
+            ovf.close()
+        return not any(sigs), "release worker: %s, overflow-checked worker: %s" % tuple(s or "ok" for s in sigs)
     if case["kind"] == "process":
         sdir = os.path.join(core.SCRATCH, "c08-replay-%d" % os.getpid())
         os.makedirs(sdir, exist_ok=True)
@@ -384,6 +436,13 @@ def main(tier, seed):
     t0 = time.time()
     core.build(need_cli=True, need_ovf=True)
     res = core.run_shards(shard, seed, tier, "C08", extra={"timeout": 25.0})
+    import functools
+    for modname in SWEEP[tier]:
+        r = core.run_shards(functools.partial(_sweep, modname), seed, "quick", modname.upper(), extra={"worker_bin": core.OVF_BIN, "timeout": 25.0})
+        res.counts["sweep_jobs"] += r.counts["sweep_jobs"]
+        res.counts["sweep_jobs:" + modname] = r.counts["sweep_jobs"]
+        res.violations += r.violations
+        res.errors += r.errors
     os.makedirs(core.SCRATCH, exist_ok=True)
     reports, njobs = memcheck(seed, tier)
     res.counts["memcheck_jobs"] = njobs
@@ -395,12 +454,14 @@ def main(tier, seed):
     shapes = [k for k in res.counts if k.startswith("shape:")]
     mr, sp = res.counts["mutated_rules"], res.counts["mutated_rules_still_parse"]
     floor = {"cases": (res.cases, 5000), "adversarial_shapes": (len(shapes), 30), "mutated_rules_still_parsing_percent": (int(100 * sp / max(1, mr)), 5),
-             "distinct_parse_error_positions": (len(pos), 100), "channels": (len(res.extra.get("channels", set())), 15), "memcheck_jobs": (njobs, 40)}
+             "distinct_parse_error_positions": (len(pos), 100), "channels": (len(res.extra.get("channels", set())), 15), "memcheck_jobs": (njobs, 40),
+             "overflow_checked_sweep_jobs": (res.counts["sweep_jobs"], 2500)}
     return core.finish("C08", tier, seed, res, t0,
-                       rule="(1) grammar-generated rule texts with 1-3 byte/token mutations x documents; (2) 28 adversarial grammatical shapes + generated programs with "
+                       rule="(1) grammar-generated rule texts with 1-3 byte/token mutations x documents; (2) 33 adversarial grammatical shapes + generated programs with "
                             "this-filters/keys filters/functions x generated and mutated documents; (3) 22 hostile documents + mutated documents as data, parameter "
                             "file, test spec and payload envelope; (4) real processes incl. rulegen and non-UTF-8 files; valgrind memcheck on the YAML loader / payload / "
-                            "FFI paths; distinct = (channel, input class, result kind, exit code)",
+                            "FFI paths; (5) crash sweep: the quick workloads of C18 and C13 (thorough: also C01, C03, C10, C15, C11, C17) replayed on the "
+                            "arithmetic-overflow-checked worker, only panics/aborts/signals counted; distinct = (channel, input class, result kind, exit code)",
                        floor=floor,
                        assumptions=["release profile is the product under test", "a watchdog expiry is re-run alone with a 200 s budget before it counts as a hang",
                                     "valgrind runs with --undef-value-errors=no (hashbrown SIMD loads); only invalid accesses and definite leaks count"])
